@@ -595,11 +595,13 @@ Proof.
       apply IH; assumption.
   - pose proof (read1_wf (w_available w) s Hs) as [Hb Hs'].
     destruct (read1 (w_available w) s) as [[b e] s']. cbn [fst snd] in *.
-    assert (H1: Jinv (set_buf w (w_buf w ++ b) (w_dirty w))).
-    { apply set_buf_J; [assumption|]. apply wf_bytes_app. split; [exact (Jinv_buf _ HJ)|assumption]. }
-    destruct e as [[| |]|]; cbn [fst snd]; try assumption.
-    + apply set_buf_J; [assumption|]. apply Jinv_buf. assumption.
-    + apply IH; assumption.
+    assert (H1: forall d, Jinv (set_buf w (w_buf w ++ b) d)).
+    { intro d. apply set_buf_J; [assumption|]. apply wf_bytes_app. split; [exact (Jinv_buf _ HJ)|assumption]. }
+    destruct e as [[| |]|]; cbn [fst snd].
+    + apply set_buf_J; [apply H1|]. apply (Jinv_buf _ (H1 false)).
+    + apply H1.
+    + apply H1.
+    + apply IH; [apply H1|assumption].
 Qed.
 
 (* per-operation input well-formedness: payload bytes are bytes, opcodes are opcodes *)
